@@ -11,6 +11,17 @@
 (* rotations happen is the implementation's choice (RotateLog.tla); the    *)
 (* directory states recorded by the driver are judged by                   *)
 (* RotateLogTrace.tla.                                                     *)
+(*                                                                         *)
+(* Hour of the day (cfg.names = "hours", size rule): the instants the      *)
+(* backups stand for are a dimension of the configuration.  cfg.rot[k] =   *)
+(* hours (+30 min) after a base midnight at which the k-th file is STARTED *)
+(* (a size-rule backup carries the start of its file), cfg.pre = the hours *)
+(* after that midnight the pre-existing backups stand for: 00, 01, 09, 11, *)
+(* 12, 13, 14, 23 h on one date and across dates, starts 12 h and 24 h     *)
+(* apart.  The trace carries for every backup ts = the TRUE instant it     *)
+(* stands for (known to the driver, not decoded from the name), so         *)
+(* RotateLogRel!BeyondMax / Older judge "newest" and "older than" in true  *)
+(* time order.                                                             *)
 (***************************************************************************)
 EXTENDS Integers, Sequences, Json, TLC
 
